@@ -2,6 +2,7 @@
 Helper lemmas and the C04/C05 layout theorems about `FfcxModel/IR/Layout.lean`.
 
   coeff_blocks_tile   C05  coefficient blocks of `w` tile `[0, width·Σdim)`
+  coeffAccess_in_block C05 `w[offset_k + dof]` lies in block k (model of symbols.coefficient_dof_access, tied by evali/coeffaccess)
   const_blocks_tile   C05  constant blocks of `c` tile `[0, ΣΠshape)`; row-major component inside its block
   orig_positions      C04/C05  original_coefficient_positions
   flatten_lt / flatten_inj / flatIdx_eq_flatComponent   row-major flattening, any rank, any sizes
@@ -167,7 +168,13 @@ theorem coeff_blocks_tile (width : Nat) (dims : List Nat) :
   rw [blockSizes_sum] at this
   exact this
 
-/-- every `w[offset_k + dof]` with `dof < width·dim_k` is inside block `k` and inside `w` -/
+/-- every `w[offset_k + dof]` with `dof < width·dim_k` is inside block `k` and inside `w`.
+`coeffAccess` is tied to the code by `harness/layout_checks._coeff_access_cases`: the index expressions the REAL
+`FFCXBackendSymbols.coefficient_dof_access` (call sites of access.py and definitions.py) and
+`coefficient_dof_access_blocked` build over the real `coefficient_offsets` of every IntegralIR of the run are
+exported and evaluated by the Lean `evalI` (driver command `evali`) and compared with `coeffAccess`
+(driver command `coeffaccess`) for a seeded (block size, begin, dof); `Ffcx.LNodes.coeffAccess_reads`
+(FfcxProofs/C05.lean) connects it to the per-read block attribution. -/
 theorem coeffAccess_in_block (width : Nat) (dims : List Nat) (k dof : Nat)
     (hk : k < dims.length) (hd : dof < width * dims.getD k 0) :
     (coeffOffsets width dims).getD k 0 ≤ coeffAccess width dims k dof
@@ -843,25 +850,40 @@ theorem isNegative_false_iff (s : SubId) :
     simp only [SubId.isNegative, decide_eq_false_iff_not, SubId.num.injEq, forall_eq']
     omega
 
+theorem tooLarge_false_iff (s : SubId) :
+    s.tooLarge = false ↔ (∀ i, s = .num i → i ≤ 2147483647) := by
+  cases s with
+  | otherwise => simp [SubId.tooLarge]
+  | num i =>
+    simp only [SubId.tooLarge, decide_eq_false_iff_not, SubId.num.injEq, forall_eq']
+    omega
+
 theorem formIRStep_ok (groups : List Group) (d : ItgData) (g' : List Group)
     (h : formIRStep groups d = .ok g') :
     g' = modifyAt (· ++ d.entries) d.itype groups ∧ d.itype < groups.length
-      ∧ ∀ i, SubId.num i ∈ d.subIds → 0 ≤ i := by
+      ∧ ∀ i, SubId.num i ∈ d.subIds → 0 ≤ i ∧ i ≤ 2147483647 := by
   unfold formIRStep at h
   split at h
   · simp at h
   · rename_i hneg
     split at h
-    · rename_i hlt
-      simp only [Except.ok.injEq] at h
-      refine ⟨h.symm, hlt, ?_⟩
-      intro i hi
-      have : (SubId.num i).isNegative = false := by
-        cases hb : (SubId.num i).isNegative with
-        | false => rfl
-        | true => exact absurd (List.any_eq_true.mpr ⟨_, hi, hb⟩) hneg
-      exact (isNegative_false_iff _).mp this i rfl
     · simp at h
+    · rename_i hbig
+      split at h
+      · rename_i hlt
+        simp only [Except.ok.injEq] at h
+        refine ⟨h.symm, hlt, ?_⟩
+        intro i hi
+        have h1 : (SubId.num i).isNegative = false := by
+          cases hb : (SubId.num i).isNegative with
+          | false => rfl
+          | true => exact absurd (List.any_eq_true.mpr ⟨_, hi, hb⟩) hneg
+        have h2 : (SubId.num i).tooLarge = false := by
+          cases hb : (SubId.num i).tooLarge with
+          | false => rfl
+          | true => exact absurd (List.any_eq_true.mpr ⟨_, hi, hb⟩) hbig
+        exact ⟨(isNegative_false_iff _).mp h1 i rfl, (tooLarge_false_iff _).mp h2 i rfl⟩
+      · simp at h
 
 theorem formIRStep_neg (groups : List Group) (d : ItgData) (i : Int) (hi : SubId.num i ∈ d.subIds)
     (hneg : i < 0) : formIRStep groups d = .error "Integral subdomain IDs must be non-negative." := by
@@ -870,11 +892,26 @@ theorem formIRStep_neg (groups : List Group) (d : ItgData) (i : Int) (hi : SubId
     List.any_eq_true.mpr ⟨_, hi, by simp [SubId.isNegative, hneg]⟩
   simp [this]
 
+/-- the second guard: no negative id in the tuple, one id above 2³¹−1 -/
+theorem formIRStep_large (groups : List Group) (d : ItgData) (i : Int) (hi : SubId.num i ∈ d.subIds)
+    (hbig : 2147483647 < i) (hnn : ∀ j, SubId.num j ∈ d.subIds → 0 ≤ j) :
+    formIRStep groups d = .error "Integral subdomain IDs must fit a 32-bit signed integer." := by
+  unfold formIRStep
+  have h1 : d.subIds.any SubId.isNegative = false := by
+    rw [List.any_eq_false]
+    intro s hs
+    cases s with
+    | otherwise => simp [SubId.isNegative]
+    | num j => have := hnn j hs; simp [SubId.isNegative]; omega
+  have h2 : d.subIds.any SubId.tooLarge = true :=
+    List.any_eq_true.mpr ⟨_, hi, by simp [SubId.tooLarge, hbig]⟩
+  simp [h1, h2]
+
 theorem formIRLoop_ok (groups : List Group) (itgs : List ItgData) (gs : List Group)
     (h : formIRLoop groups itgs = .ok gs) :
     gs.length = groups.length
     ∧ (∀ t, t < groups.length → gs.getD t [] = groups.getD t [] ++ expectedGroup itgs t)
-    ∧ (∀ d ∈ itgs, d.itype < groups.length ∧ ∀ i, SubId.num i ∈ d.subIds → 0 ≤ i) := by
+    ∧ (∀ d ∈ itgs, d.itype < groups.length ∧ ∀ i, SubId.num i ∈ d.subIds → 0 ≤ i ∧ i ≤ 2147483647) := by
   induction itgs generalizing groups with
   | nil =>
     simp only [formIRLoop, Except.ok.injEq] at h
